@@ -387,4 +387,5 @@ PROPERTIES = {
     'C08': ['setUsedSize', 'getIndex', 'store', 'load', 'probe', 'insert', 'setScore', 'getScore', 'getByte', 'putByte',
             'byteSize', 'resize', 'lemma_torn', 'lemma_fields', 'lemma_tbregion', 'updateTB', 'clear_head'],
     'C12': ['updateTB', 'clear_head', 'lemma_tbregion', 'setUsedSize'],
+    'C04': ['setScore', 'getScore', 'isCutOff'],
 }
